@@ -940,8 +940,17 @@ binary_add_fns: dict[str, BinaryCallable] = {
     "-": lambda x, y: x - y,
 }
 
+def binary_round_fn(
+    x: Union[int, float], y: Union[int, float]
+) -> Union[int, float]:
+    # The digit count is an integer (MediaWiki truncates it); clamp it, as
+    # round(5, -10**400) would first compute 10**(10**400).
+    digits = max(-400, min(400, int(y)))
+    return round(x, digits)
+
+
 binary_round_fns: dict[str, BinaryCallable] = {
-    "round": round,  # type:ignore
+    "round": binary_round_fn,
 }
 
 binary_cmp_fns: dict[str, BinaryCallable] = {
